@@ -415,7 +415,7 @@ def check(tier, seed):
     report = Reporter(c)
     opts = {}
     import time
-    tm = c.extra.setdefault("phase_wall_s", {}); t_ = [time.time()]
+    tm = c.extra.setdefault("phase_wall_s", {}); t_ = [c.t0]
     def lap(name): tm[name] = round(time.time() - t_[0], 1); t_[0] = time.time()
     lap("prove+build")
     if ok and exes.get("c03"):
